@@ -10,7 +10,8 @@ class Star(ASTNode):
         super().__init__(*args, **kwargs)
 
     def to_tree(self, *args, level=0, **kwargs):
-        return indent(level) + f'Star()'
+        alias_str = f'alias={self.alias.to_tree()}' if self.alias else ''
+        return indent(level) + f'Star({alias_str})'
 
     def get_string(self, *args, **kwargs):
         return '*'
